@@ -450,3 +450,39 @@ def RDivIntSpec(result, n, t, prec, rnd):
     a = -n if n < 0 else n
     g = prec + t[3] + 5
     return CRoundQ(result, sg, a * pow2(g), t[1], -t[2] - g, prec, rnd)
+
+
+# ----------------------------------------------------------------------------- integer parts (C06)
+
+def RoundIntSpec(result, s, rnd):
+    """result is the canonical value of round(s) to an integer in mode rnd (non-finite values and
+    values with non-negative exponent, which are integers already, pass through)"""
+    if is_nonfinite(s) or s[2] >= 0:
+        return result == s
+    n = -s[2]
+    if result == fzero:
+        return rounded_ok(0, s[1], n, rnd, s[0])
+    return (finite_nz(result) and result[0] == s[0] and result[2] >= 0
+            and rounded_ok(result[1] * pow2(result[2]), s[1], n, rnd, s[0]))
+
+
+def ToIntSpec(result, s, rnd):
+    """result == round(s) as a Python int (rnd None means truncation toward zero)"""
+    if s[2] >= 0:
+        return result == (1 - 2 * s[0]) * s[1] * pow2(s[2])
+    R = result if s[0] == 0 else -result
+    return R >= 0 and rounded_ok(R, s[1], -s[2], 'd' if rnd is None else rnd, s[0])
+
+
+def ModSpec(result, s, t, prec, rnd):
+    """result == round_prec(s mod t), s mod t = s - t*floor(s/t) (sign of t), for finite s and
+    finite non-zero t; nan for non-finite operands"""
+    if is_nonfinite(s) or is_nonfinite(t):
+        return result == fnan
+    E = min(s[2], t[2])
+    S = (1 - 2 * s[0]) * s[1] * pow2(s[2] - E)
+    T = (1 - 2 * t[0]) * t[1] * pow2(t[2] - E)
+    r = fmod(S, T)
+    if r >= 0:
+        return CRound(result, 0, r, E, prec, rnd)
+    return CRound(result, 1, -r, E, prec, rnd)
